@@ -146,12 +146,16 @@ void h_pipe_ntt(void) {
 #ifdef __CPROVER__
   __CPROVER_assume(big != 0);
 #endif
+  uint64_t* a0 = vf_snapshot((const uint64_t*)a, (uint64_t)ASZ * NN);
   vec_znx_dft(mod, (VEC_ZNX_DFT*)dft, RSZ, a, ASZ, NN);
+  for (unsigned i = 0; i < ASZ * NN; ++i) VF_ASSERT((uint64_t)a[i] == a0[i], "vec_znx_dft leaves its coefficient input untouched");
 #ifdef TMPA
   vec_znx_idft_tmp_a(mod, (VEC_ZNX_BIG*)big, RSZ, (VEC_ZNX_DFT*)dft, RSZ);
 #else
   uint8_t* tmp = (uint8_t*)vf_alloc_words(vec_znx_idft_tmp_bytes(mod) / 8);
+  uint64_t* d0 = vf_snapshot(dft, (uint64_t)RSZ * NN * 4);
   vec_znx_idft(mod, (VEC_ZNX_BIG*)big, RSZ, (VEC_ZNX_DFT*)dft, RSZ, tmp);
+  for (unsigned i = 0; i < RSZ * NN * 4; ++i) VF_ASSERT(dft[i] == d0[i], "vec_znx_idft (not the overwrite variant) leaves its DFT input untouched");
 #endif
   for (unsigned i = 0; i < RSZ * NN; ++i) VF_R128[i] = big[i];
 #ifndef __CPROVER__
